@@ -173,13 +173,18 @@ class Pipeline:
                 raise
             self.guided = True
             return self.run_guided(message, secret)
-        notes = inexact_notes(outs)
-        if notes:
-            raise CannotEval('mask_password extraction inexact: %s' % notes)
+        if getattr(outs, 'overflow', None) or inexact_notes(outs):
+            # the key tests are not decided by the set of keys present (or
+            # the table is inexact): every message is followed by itself
+            self.guided = True
+            return self.run_guided(message, secret)
         from ..core.table import outcome_at, outcome_value
         val = {MSG: message, SECRET: secret}
-        o = outcome_at(outs, val, [_hook])
-        r = outcome_value(o, val, [_hook])
+        try:
+            o = outcome_at(outs, val, [_hook])
+            r = outcome_value(o, val, [_hook])
+        except CannotEval:
+            return self.run_guided(message, secret)
         if r[0] != 'return':
             raise CannotEval('mask_password raises %s' % (r[1],))
         return r[1]
@@ -575,6 +580,31 @@ def _pipeline(ctx, keys):
                         check('two secrets', '%s + %s' % tuple(sorted(
                             (r1, r2))), a[0] + ' ; ' + b[0],
                             a[1] + ' ; ' + b[1])
+        # two different keys in one message, in both orders of the key
+        # list, with secrets longer and shorter than the mask (what one
+        # substitution does to the positions of the rest of the message)
+        long_s, short_s = 'a-much-longer-value-than-the-mask-is', 'z'
+        pairs = [(keys[0], keys[-1]), (keys[-1], keys[0]),
+                 ('password', 'token'), ('token', 'password'),
+                 ('auth_token', 'secret_uuid')]
+        for k1, k2 in pairs:
+            if k1 in k2 or k2 in k1:
+                continue
+            for s1, s2 in ((long_s, short_s), (short_s, long_s),
+                           (long_s, long_s)):
+                r1s = renderings(k1, s1, mask)
+                r2s = renderings(k2, s2, mask)
+                for (n1, m1, w1) in r1s:
+                    for (n2, m2, w2) in r2s:
+                        if any(q in n1 + n2 for q in (
+                                "'key': 'value'", '"key"', "u'key'",
+                                "'--flag'")):
+                            continue
+                        if n1 != 'key=value' and n2 != 'key=value' and \
+                                n1 != n2:
+                            continue
+                        check('two keys', '%s + %s' % (n1, n2),
+                              m1 + ' ; ' + m2, w1 + ' ; ' + w2)
         # three and four secrets for one key in the same rendering
         for key in ('password', 'sslkey', 'secret'):
             for rname, _m, _w in renderings(key, 'x', mask):
@@ -623,6 +653,8 @@ def _pipeline(ctx, keys):
         check('probe', 'dict rendering followed by more quoted text',
               "{'password': 'x', 'user': 'admin'}",
               "{'password': '***', 'user': 'admin'}")
+        check('probe', 'quoted secret containing a key word and a dash',
+              'x token="my secret-word" y', 'x token="***" y')
         check('probe', "--key value with '=' in the value",
               'cmd --password ab=cd next', 'cmd --password *** next')
     except CannotEval as e:
